@@ -126,15 +126,15 @@ func (f *wsFactory) NewSession(_ ws.Connection) *client.WSSession {
 }
 
 type xRun struct {
-	picks []int
+	picks   []int
 	starved string
-	events []string
-	rets   [][]string
-	widths []int
-	stuck  bool
-	panics map[string]interface{}
-	strace []sched.Step
-	conns  []*fakes.WsConn
+	events  []string
+	rets    [][]string
+	widths  []int
+	stuck   bool
+	panics  map[string]interface{}
+	strace  []sched.Step
+	conns   []*fakes.WsConn
 }
 
 func xRet(kind string, err error) string {
